@@ -44,6 +44,13 @@ var defaultTokens = []TokenInfo{{ID: "FNG-a1b2c3", Kind: "F"}, {ID: "FNH-d4e5f6"
 // GenSpec draws a world: 1-3 shards, two users and one contract per shard (+1 user on shard 0), a DNS contract.
 func GenSpec(t *rapid.T) WorldSpec {
 	n := rapid.SampledFrom([]int{2, 1, 3, 2, 2, 3, 1, 2}).Draw(t, "nshards")
+	spec := genSpecBase(t, n)
+	// mostly active from genesis; sometimes the three gated functions become active only at a later epoch
+	spec.ActivationEpoch = rapid.SampledFrom([]uint32{0, 0, 0, 0, 1, 2, 3}).Draw(t, "activation")
+	return spec
+}
+
+func genSpecBase(t *rapid.T, n int) WorldSpec {
 	return MakeSpec(n, rapid.SampledFrom([]uint64{1, 1, 10}).Draw(t, "gasscale"), rapid.Bool().Draw(t, "namechange"),
 		rapid.IntRange(0, 2).Draw(t, "ownerpick"), rapid.SampledFrom([]string{"0", "5", "1180591620717411303424"}).Draw(t, "reward"))
 }
@@ -668,7 +675,8 @@ func (g *Gen) byKind(kind string) Op {
 		return g.genGasOp()
 	case "epoch":
 		g.Layer = "env"
-		return Op{Kind: "epoch", Shard: g.pick("epoch-shard", m.NShards), Epoch: pickFrom(g, "epoch", []uint32{0, 1, 2, 3, 1 << 31, 1<<32 - 1})}
+		cur := m.Shards[0].Epoch
+		return Op{Kind: "epoch", Epoch: pickFrom(g, "epoch", []uint32{cur + 1, cur + 1, cur + 1, cur, 0, 1, 2, 3, 4, 1 << 31, 1<<32 - 1})}
 	case "mutate":
 		base := g.byKind(pickFrom(g, "mut-base", []string{"transfer", "nfttransfer", "multi", "multi", "mint", "localburn", "burn", "create", "addq", "nftburn", "adduri", "update", "skv", "changeowner", "claim", "setusername", "freeze", "pause", "setrole", "handover"}))
 		if base.Kind != "call" || base.Call.MsgID != 0 {
@@ -921,7 +929,18 @@ func (g *Gen) genOwnNFT(kind string) *Call {
 	default:
 		rest = [][]byte{g.field("own-attrs")}
 	}
-	return g.selfCall(fn, who, append([][]byte{token, beNonce(nonce)}, rest...)...)
+	nb := beNonce(nonce)
+	switch g.pick("own-nonce-form", 24) {
+	case 0:
+		nb = append([]byte{0}, nb...)
+	case 1:
+		nb = append([]byte{1}, leftPad8(nb)...) // 9 bytes, low 64 bits = the nonce
+		g.Shape = append(g.Shape, "nine-byte-number")
+	case 2:
+		nb = []byte{1, 0, 0, 0, 0, 0, 0, 0, 0} // 2^64: non-zero, low 64 bits zero
+		g.Shape = append(g.Shape, "nine-byte-number")
+	}
+	return g.selfCall(fn, who, append([][]byte{token, nb}, rest...)...)
 }
 
 func (g *Gen) genSKV() *Call {
